@@ -243,9 +243,13 @@ def main():
         finally:
             shutil.rmtree(d, ignore_errors=True)
     os.makedirs(os.path.join(ROOT, "sensitivity"), exist_ok=True)
-    if not want:
-        with open(os.path.join(ROOT, "sensitivity", "results.json"), "w") as fp:
-            json.dump(results, fp, indent=1)
+    path = os.path.join(ROOT, "sensitivity", "results.json")
+    if want and os.path.exists(path):
+        # selected mutants only: replace their rows in the stored results
+        new = {r["mutant"]: r for r in results}
+        results = [new.pop(r["mutant"], r) for r in json.load(open(path))] + list(new.values())
+    with open(path, "w") as fp:
+        json.dump(results, fp, indent=1)
 
 
 main()
